@@ -166,11 +166,33 @@ func (c *Ctx) mustPrecede(fn *ssa.Function, a Sel, aname string, b Sel, bname st
 	}
 	var bad []string
 	s := atEntry(fn)
-	ir.WalkCtx(s.b, s.idx, s.pred, nil, func(in ssa.Instruction) bool {
+	seenBad := map[ssa.Instruction]bool{}
+	ir.WalkPaths(s.b, s.idx, s.pred, nil, func(in ssa.Instruction, incoming func(*ssa.Phi) (ssa.Value, bool)) bool {
 		if a(in) {
 			return false
 		}
-		if b(in) {
+		if b(in) && !seenBad[in] {
+			// a return that hands back a result variable: on the path being
+			// explored the variable may hold an error that is known not to
+			// be nil (the exits of an inlined helper share one return)
+			if r, isRet := in.(*ssa.Return); isRet && len(r.Results) > 0 && isErrorType(r.Results[len(r.Results)-1].Type()) && errSuccess(r) {
+				v := ir.RetVal(r, len(r.Results)-1)
+				for d := 0; d < 4; d++ {
+					ph, isPhi := v.(*ssa.Phi)
+					if !isPhi {
+						break
+					}
+					w, ok := incoming(ph)
+					if !ok {
+						break
+					}
+					v = w
+				}
+				if knownNonNilError(v) {
+					return true
+				}
+			}
+			seenBad[in] = true
 			bad = append(bad, fmt.Sprintf("%s at %s reachable from entry without passing %s", bname, c.at(in), aname))
 		}
 		return true
